@@ -186,19 +186,19 @@ CHECKS = {'C01': {'text': 'Lean theorems about an interleaving transition system
                  'close; device = oracle script of recv results data|timeout|eof with elapsed virtual time, i.e. every packetisation and arrival '
                  'timing), for all states, scripts, terminators (any length), counts, time-outs (None/0/+/-) and all op sequences incl. the device '
                  'sending at any point: conservation (returned/discarded log ++ buffer ++ undelivered = device stream; unconditional for TCP/serial '
-                 '= conservation_stream, for UDP under datagrams<=packet size = conservation_udp, otherwise exactly one datagram lost = '
+                 '= conservation_stream, for UDP when every datagram fits the packet size = conservation_udp, otherwise exactly one datagram lost = '
                  'lost_datagram_step), read_exact, readUntil_shortest (+ chunking invariance), timeout/exception_consumes_nothing, '
-                 'readUntilTimeout_le_n for TCP and serial (partial) with a decide-checked counter-example for UDP replayed on the real code, '
-                 'closed_never_touches_device, open_close_state_machine / isOpen_run, discard_empties_buffer, exhausted_only_when_script_empty (loop '
-                 'fuel never binds). Tie: the three real transports against a scripted socket / serial.Serial and virtual time.monotonic; result, '
-                 'exception class, every device interaction (settimeout values, recv sizes), clock, script position and _read_buffer diffed with the '
-                 'Lean driver per op; independent oracle: returned bytes are the front of the undelivered stream, buffer = undelivered, exactly-n / '
-                 'shortest / at-most-n, closed => no device call, open/close refusals.',
+                 'readUntilTimeout_le_n for all three transports (+ keeps_rest), closed_never_touches_device, open_close_state_machine / isOpen_run, '
+                 'discard_empties_buffer, exhausted_only_when_script_empty. 27 theorems, all full strength. Tie: the three real transports against a '
+                 'scripted socket / serial.Serial and virtual time.monotonic; result, exception class, every device interaction, clock, script '
+                 'position and _read_buffer diffed with the Lean driver per op; independent oracle: returned bytes are the front of the undelivered '
+                 'stream, buffer = undelivered, exactly-n / shortest / at-most-n, a datagram that fits the packet size is never lost or cut, closed '
+                 '=> no device call, open/close refusals.',
          'note': "Trusted: Lean kernel + 3 axioms; the scripted device (stream recv <= requested with remainder kept, datagram whole or OSError, b'' "
-                 'at EOF, settimeout(<0) ValueError, in_waiting/reset_input_buffer semantics) and virtual clock (1 tick = 1/8 s, exact floats); '
-                 'bytearray.find/endswith mirrored and diffed; open() always succeeds (connect failure not modelled); write() not modelled; '
-                 'packet-size constants read from the live classes each run. 1 known finding: UDP read_until_timeout returns > n bytes (reproduced '
-                 'on real sockets with t=0).',
+                 'at EOF, settimeout(<0) ValueError, in_waiting/reset_input_buffer semantics) and virtual clock; bytearray.find/endswith mirrored '
+                 'and diffed; open() always succeeds (connect failure not modelled); write() not modelled; packet-size constants read from the live '
+                 'classes each run. 0 known findings; 1 fixed (916a4b4: UDP read_until_timeout returned more than n bytes), reverting the fix is '
+                 'reported as a new violation with a concrete input.',
          'technique': 'Lean 4 proof (stream-accounting invariant by induction over fuel-recursive loop models and op lists) + op-sequence '
                       'correspondence with device-interaction traces against scripted devices'},
  'C14': {'text': 'Lean theorems over all strings, all well-typed default dictionaries, both platforms and all tables passing EnvOk '
@@ -281,37 +281,39 @@ CHECKS = {'C01': {'text': 'Lean theorems about an interleaving transition system
          'technique': 'Lean 4 proofs (derivative-based matcher vs inductive spec, packet round-trips, invariance under junk, end-to-end composition) '
                       '+ regenerated layout obligation + differential correspondence with the real responder and asker'},
  'C19': {'text': 'Lean theorems over an abstract open()/close() program language (fuel-based semantics, state = flag, open links, device log; fault '
-                 'plan = the k-th potentially-raising step raises kind κ): fault_beyond_end (∀ plan reduces to a finite table), all_plans_of_table, '
-                 'consistent_of_wf (decidable syntactic discipline ⇒ consistent under every plan), retry_possible, close_after_open, closed_no_io, '
-                 'double_open_close_refused. Per driver class (64 programs regenerated from the AST of open/close on every run): ok_X : ∀ plan, '
-                 'Consistent (51 classes) or the kernel-checked negation witness bad_X plus exact_X (the complete list of failing plans; 13 programs '
-                 '= 12 known findings), hist_X, recover_X, shape_X, all by decide +kernel. Tie: every class is instantiated around recording '
-                 'fault-injecting transports; every transport call of the real open() × {timeout, instrument error, OS error, junk reply} is swept, '
-                 'executed statements (line trace), exception, is_open() and link flags are diffed against the model run under the corresponding '
-                 'plan; plus seeded open/close histories (with faulty opens) and every RPC method on the closed instrument.',
+                 'plan = the k-th potentially-raising step raises kind κ): fault_beyond_end (∀ plan reduces to a finite table), all_plans_of_table; '
+                 'consistent_of_safe (a plan-independent abstract run, sound by chk_sound, accepts ⇒ consistent under every plan, any nesting and '
+                 'number of links) and its single-link syntactic special case consistent_of_wf; retry_possible, close_after_open(_safe), '
+                 'closed_no_io, double_open_close_refused. Per driver class (64 programs regenerated from the AST of open/close on every run): ok_X '
+                 ': ∀ plan, Consistent ∧ run complete, hist_X, recover_X, shape_X (safeOpen/safeClose hold for all 64), by decide +kernel; a class '
+                 'that violates the property would instead get the kernel-checked negation witness bad_X + exact_X. 291 theorems. Tie: every class '
+                 'is instantiated around recording fault-injecting transports; every transport call of the real open() × {timeout, instrument error, '
+                 'OS error, junk reply} is swept; executed statements (line trace), exception, is_open() and link flags are diffed against the model '
+                 'run under the corresponding plan; plus seeded open/close histories (with faulty opens) and every RPC method on the closed '
+                 'instrument.',
          'note': 'Trusted: Lean kernel (axioms used: propext, Quot.sound); translator harness/tr_openprogs.py (conservative: whitelist of pure '
                  'statements, refuses source it does not understand) and the fake transport; `io` statements are one opaque potentially-raising step '
-                 '(assumed not to touch flag/links — validated by the per-run correspondence); concrete transports, faults inside close(), multiple '
-                 'faults and BaseException are out of scope; consistent_of_wf/close_after_open are stated for single-link drivers.',
-         'technique': 'Lean 4 proof (generic lemmas + per-class decide +kernel on programs translated from source) + line-trace fault-sweep '
-                      'correspondence with the real drivers'},
+                 '(validated by the per-run correspondence); concrete transports, faults inside close(), multiple faults and BaseException are out '
+                 'of scope. The 12 defects found on the pinned tree are repaired (11 fix commits, all in known findings as fixed); reverting any of '
+                 'them is reported as a VIOLATION with a concrete fault.',
+         'technique': 'Lean 4 proof (generic lemmas + verified abstract interpreter + per-class decide +kernel on programs translated from source) + '
+                      'line-trace fault-sweep correspondence with the real drivers'},
  'C20': {'text': 'Lean theorems over all symbol lists / file maps / name tables / device states / name lists / value assignments (induction, no '
-                 'bounds): binding_injective (accepted ⇒ names distinct ignoring case, binding injective into Par/FPar/array-element resp. Data '
-                 'registers), binding_complete (iff), conflicting_definitions_rejected, violation_rejected_with_position (error names '
-                 'file/line/label of the first symbol that names an unknown array or clashes with an earlier definition), analyze_outcomes + '
-                 'index_too_long_escapes, ranges_partition (sorted, disjoint, maximal, union = input), batch_set_eq_single (same registers on '
-                 'success; same exception and exact partial effect on failure), batch_get_eq_single (same keys/values, registers untouched), '
-                 'touches_exactly_bound_registers (⊆ and ⊇), name_denotes_one_register / names_resolve_injectively (parser .upper() vs manager '
-                 '.lower()), start_with_params_eq_single, parse_terminates (acyclic includes — hypothesis forced by the proof) with '
-                 'cyclic_include_never_terminates / parse_terminates_needs_acyclicity as kernel-checked negation witness (KNOWN-FINDING x3: include '
-                 'cycle, self-include, >4300-digit index -> ValueError). Tie: five differential streams against the real code (scanner texts, '
-                 'include resolution, range lists, ~8k layouts with injected duplicates/conflicts + accessor ops on the real Adwin_Base over a fake '
-                 'ADwin library, ~1.5k generated program trees on disk incl. nested/diamond/cyclic/missing includes) ≈ 23k cases quick / 215k '
-                 'thorough, plus a direct oracle.',
+                 'bounds): binding_injective, binding_complete (iff), conflicting_definitions_rejected, violation_rejected_with_position '
+                 '(file/line/label of the first symbol that names an unknown array, has an unconvertible index, or clashes with an earlier '
+                 'definition), analyze_outcomes (binding or ParseException, nothing else), ranges_partition, batch_set_eq_single, '
+                 'batch_get_eq_single, touches_exactly_bound_registers (⊆ and ⊇), name_denotes_one_register / names_resolve_injectively, '
+                 'start_with_params_eq_single, parse_terminates (unconditional: ≤ length fs + 1 opens for every file map incl. include cycles), '
+                 'include_cycle_parsed_once. 15 theorems, all full strength. Tie: five differential streams against the real code (scanner texts, '
+                 'include resolution, range lists, ~8k layouts with injected duplicates/conflicts incl. Par_n<->FPar_n rebinding + accessor ops on '
+                 'the real Adwin_Base over a fake ADwin library, ~1.5k generated program trees on disk incl. nested/diamond/cyclic/missing includes) '
+                 '≈ 23k cases quick / 215k thorough, plus a direct oracle (one-to-one or positioned rejection; open()-budget watchdog + '
+                 'include-cycle detection; batch ≡ one-at-a-time; touched = bound).',
          'note': 'Trusted: Lean kernel + 3 standard axioms; harness/generators; the six regexes, splitlines/universal newlines, posixpath '
                  'join/dirname/normpath and int() digit limit are re-implemented in the model and only differentially checked (ASCII + '
                  'line-separator code points; non-ASCII upper()/lower() not modelled); file system = finite path→text map; the ADwin is a total '
                  'register file (Adwin_Base range/dtype validation, numpy dtype unification, 32-bit wrap not modelled). Batch≡single oracle domain: '
-                 'bound, case-distinct names and well-typed values. parse termination watchdog = open() budget 200 = model fuel.',
-         'technique': 'Lean 4 proof (loop invariants over dict-shaped state, two-phase batch vs fold refinement, weight-function termination) + '
-                      'differential correspondence with the real parser/manager + watchdog-guarded failing-input search'}}
+                 'bound, case-distinct names and well-typed values. 0 known findings; 3 fixed (48b63c7 include cycle + self-include never '
+                 'terminated; 53c483e >4300-digit index -> ValueError); reverting either fix yields a VIOLATION with a concrete input.',
+         'technique': 'Lean 4 proof (loop invariants over dict-shaped state, two-phase batch vs fold refinement, measure-function termination of the '
+                      'include walk) + differential correspondence with the real parser/manager + watchdog-guarded failing-input search'}}
